@@ -75,6 +75,18 @@ CHECKS = [
         text='Histories (NONMEM start model from the corpus x 1-5 public modeling transformations) are applied; after every step the generated code is parsed by the reference interpreter and compared with the in-memory model: thetas and omega/sigma matrices, ODE right-hand sides under a consistent compartment numbering (the reported map first, any permutation otherwise), lag/bioavailability/rate/duration parameter indices on dosing compartments, default dose compartment, RATE column flags, every variable both sides define and Y (per DVID); the final model is written, read back and compared (parameters, dataset, function). A violation is keyed by the oracle clause and the transformation that introduced it (the oracle held before that step).',
         note='Reference interpreter = my reading of the NONMEM guides; ODEs compared through right-hand sides at sampled amounts (no integration); transformations that raise are dropped from the history (their errors belong to C06/C08).',
     ),
+    dict(
+        id='C09', level='exploration',
+        technique='property-based testing: model extensions (covariate effects, IIV/IOV, eta transformations, allometry, error models, BLQ, transit/absorption setters) vs formulas transcribed from the docstrings, numeric probing incl. finite differences',
+        text='For corpus models (plus prior transformations) each extension is applied with generated arguments and the model function after is compared with the documented formula applied to the model function before (individual parameters, Y at eps=0, dY/d eps coefficients by finite differences, rates and durations of transit/absorption models); neutrality at the reference point is asserted only where the documented formula is neutral; removers must restore the function; has_* detectors must agree with setters.',
+        note='Formulas are those quoted from the docstrings in pv/ref/formulas.py; where a docstring does not pin the centring statistic every documented reading is accepted and counted. Amounts are inputs (no integration).',
+    ),
+    dict(
+        id='C12', level='exploration',
+        technique='property-based testing: round trips of generated components/models through to_dict/JSON/generic code; model hash compared across fresh interpreters with different PYTHONHASHSEED and across construction histories / single-field edits',
+        text='Generated parameters, random variables, statements incl. compartmental systems, datainfo, execution steps, expressions and whole models must survive to_dict/from_dict and JSON; generic code must parse back to an equal model; recipes are rebuilt in 4 fresh interpreters (PYTHONHASHSEED 0,1,2,random) and must give one ModelHash; equal content built by different histories (permuted builder operations, subs/rename there and back, inverse transformations, metadata changes) must give equal keys and single-field edits different keys.',
+        note='Same content = pharmpy == plus equal datasets plus to_dict equal up to mapping/graph order and 0 vs 0.0; sub-process timeouts are harness errors, never violations.',
+    ),
 ]
 
 ALL = ['C%02d' % i for i in range(1, 21)]
